@@ -11,10 +11,11 @@ from .. import base, gen, hmmref
 from ..base import Violation, HarnessError
 
 RULE = ("cases: (planar graph, trace, configuration) with non-emitting states off, no width, avoid_goingback=False; "
-        "all graph families / label kinds / trace kinds / three matcher families / all cut-off combinations; "
+        "all graph families / label kinds / trace kinds / three matcher families / all cut-off combinations; one case in 150 is a very "
+        "long trace (700-900 observations, total log-probability far below -745, reference Viterbi only); "
         "non-trivial = at least 2 observations matched and at least 2 admissible walks for the matched prefix; "
         "distinct = canonical case JSON")
-ASSUMPTIONS = ["planar metric (lat/lon is tied to it by C15 and C14)", "graphs <= 12 nodes, traces <= 12 points",
+ASSUMPTIONS = ["planar metric (lat/lon is tied to it by C15 and C14)", "graphs <= 12 nodes, traces <= 12 points (except the very long traces on a 3-node road)",
                "labels: ints or short strings without '-'/'_' (the package joins labels with these characters), homogeneous per map",
                "decisions within 1e-9 of a cut-off are not decided (counted as 'ambiguous')",
                "cases hit by open finding F1 (InMemMap.edges_closeto drops start candidates) are excluded on the in-memory map, "
